@@ -25,8 +25,8 @@ ASSUMPTIONS = [
     'reference layout = checks/layouts.py (written from the CAMx user guide, '
     'no library code)',
     'writers: the gridded average/emissions (uamiv) writer and the one3d / '
-    'temperature / height_pressure writers (checks/metwrite.py: real writer '
-    'function on a byte sink, symbolic time flags, concrete payload); wind, '
+    'temperature / height_pressure / wind writers (checks/metwrite.py: real writer '
+    'function on a byte sink, symbolic time flags, concrete payload); '
     'cloud_rain, lateral_boundary, landuse writers are not encoded. uamiv: '
     'its data loop is '
     'executed on a sink that records the byte count and integer value of '
@@ -34,9 +34,10 @@ ASSUMPTIONS = [
     'enumerated (f4, f8; i4, i2 thorough); the byte-level decode of '
     'names/values is done only in replay (real file, independent walker)',
     'readers: uamiv memmap (size arithmetic, all four file kinds) and record '
-    'reader; one3d/temperature/height_pressure memmap readers on the full '
-    'reference file (checks/metmap.py); lateral_boundary, landuse, wind, '
-    'cloud_rain, bpch and ARL are not encoded',
+    'reader; one3d/temperature/height_pressure/wind memmap readers on the '
+    'full reference file (checks/metmap.py) and the wind reader\'s layer/'
+    'step arithmetic on a symbolic record file (2..24 cells per layer); '
+    'lateral_boundary, landuse, cloud_rain, bpch and ARL are not encoded',
 ]
 
 MANIFEST = {
@@ -174,7 +175,8 @@ def _write_and_walk(inputs, srcdt, nspec, nz):
                 for n_ in names:
                     v = f.createVariable(n_, srcdt, ('TSTEP', 'LAY', 'ROW',
                                                      'COL'))
-                    data[n_] = rng.rand(T, nz, ny, nx).astype('f')
+                    data[n_] = (rng.rand(T, nz, ny, nx) * 100).astype(
+                        srcdt).astype('f')
                     v[:] = data[n_]
                 f.NAME, f.NOTE = 'AVERAGE   ', 'note'.ljust(60)
                 f.ITZON, f.PLON, f.PLAT, f.IUTM = 0, 0., 0., 0
@@ -502,6 +504,124 @@ class FullSizeMemmap(c14.CutUamiv):
         return {'obs': {'ntimes': T}, 'violations': viol}
 
 
+class ReadWind(Obligation):
+    """wind memmap reader: the step and layer counts it derives from the
+    record sizes and the file length (RecordFile walk + size arithmetic, real
+    source on a symbolic record file) equal the encoded ones, for an
+    enumerated number of cells per layer"""
+    mode = 'int'
+    validate_paths = 4
+    max_paths = 300
+    stubs = ('FortranFileUtil.unpack_from_file (layout oracle)',
+             'file object (symbolic offset)',
+             'np.memmap (only the stagger flag word is read at open time)')
+    any_violation_confirms = True
+    CMAX = 24
+
+    def __init__(self, nz, T, dummy, stagger=True):
+        self.nz, self.T, self.dummy, self.stagger = nz, T, dummy, stagger
+        self.name = 'reader-wind[nz=%d,T=%d,dummy=%s,%s]' % (
+            nz, T, dummy, 'stagger' if stagger else 'nostagger')
+        self.bounds = {'nz': nz, 'T': T, 'cells per layer': '2..%d' % self.CMAX,
+                       'dummy record': 'one word (as in the sample file and '
+                       'the library writer)'}
+        self._space = None
+
+    def space(self):
+        if self._space is None:
+            self._space = loader.TwinSpace(stubs={
+                'PseudoNetCDF.pncwarn': common.warn_stub(common.WarnRec())})
+            ffu = self._space.twin('PseudoNetCDF.camxfiles.FortranFileUtil')
+            ffu.unpack_from_file = lambda fmt, f: f.model_unpack(fmt)
+            self._space.twin('PseudoNetCDF.camxfiles.wind.Memmap')
+        return self._space
+
+    def sym(self, ctx, h):
+        sp = self.space()
+        M = sp.twin('PseudoNetCDF.camxfiles.wind.Memmap')
+        # one cell per layer makes a data record as long as the one-word
+        # dummy record: such a file is ambiguous in this header-less format.
+        # The reader stores len(COL): the cell count is enumerated by the
+        # solver (2..CMAX), the size arithmetic stays symbolic until then
+        rows = 1
+        cols = ctx.int('cols', 2, self.CMAX)
+        cells = cols
+        date0 = ctx.int('date0', 1001, 99300)
+        h0 = ctx.int('h0', 0, 23)
+        ctx.assume(date0.e % 1000 >= 1, check=False)
+        ctx.assume(date0.e % 1000 <= 300, check=False)
+        dw = 1 if self.dummy == 'one' else cells
+        lay = layouts.WindLayout(self.nz, self.T, cells, dw, date0, h0 * 100,
+                                 self.stagger)
+        f = layouts.SymFile(ctx, lay)
+        f.eof_raises = True
+
+        class _MM(object):
+            def __getitem__(self, k):
+                return np.float32(0.0)
+        M.memmap = lambda *a, **k: _MM()
+        import sys
+        sys.setprofile(sp.profile())
+        try:
+            try:
+                w = M.wind(f, rows, cols)
+            except Exception as ex:
+                h.candidate('open-raised:' + type(ex).__name__,
+                            repr(ex)[:200])
+                return
+            nt = len(w.dimensions['TSTEP'])
+            nl = len(w.dimensions['LAY'])
+        finally:
+            sys.setprofile(None)
+        h.claim('layers', z3.BoolVal(int(nl) == self.nz))
+        h.claim('steps', z3.BoolVal(int(nt) == self.T))
+        h.observe('steps', int(nt))
+
+    def real(self, inputs):
+        import warnings
+        rows = min(int(frac_of(inputs.get('rows', 1))), 64)
+        cols = min(int(frac_of(inputs.get('cols', 2))), 64)
+        cells = rows * cols
+        date0 = int(frac_of(inputs.get('date0', 2001)))
+        h0 = int(frac_of(inputs.get('h0', 0)))
+        dw = 1 if self.dummy == 'one' else cells
+        lay = layouts.WindLayout(self.nz, self.T, cells, dw, date0, h0 * 100,
+                                 self.stagger)
+        viol = {}
+        obs = {}
+        d = tempfile.mkdtemp(prefix='verif_c09_')
+        path = os.path.join(d, 'w.wind')
+        try:
+            data = lay.write_real(path, rows, cols)
+            with warnings.catch_warnings():
+                warnings.simplefilter('ignore')
+                from PseudoNetCDF.camxfiles.wind.Memmap import wind
+                try:
+                    w = wind(path, rows, cols)
+                    nt = len(w.dimensions['TSTEP'])
+                    obs['steps'] = nt
+                    if nt != self.T:
+                        viol['steps'] = '%d steps read, %d encoded' % (
+                            nt, self.T)
+                    if len(w.dimensions['LAY']) != self.nz:
+                        viol['layers'] = '%d layers read, %d encoded' % (
+                            len(w.dimensions['LAY']), self.nz)
+                    if not viol:
+                        for k in ('U', 'V'):
+                            got = np.asarray(w.variables[k][:], dtype='f')
+                            if got.shape != data[k].shape or \
+                                    not np.array_equal(got, data[k]):
+                                viol['payload'] = '%s differs from the ' \
+                                    'encoder' % k
+                except Exception as ex:
+                    viol['open-raised:' + type(ex).__name__] = repr(ex)[:200]
+        finally:
+            for fn in os.listdir(d):
+                os.remove(os.path.join(d, fn))
+            os.rmdir(d)
+        return {'obs': obs, 'violations': viol, 'grid': (rows, cols)}
+
+
 def obligations(tier):
     obs = [WriterMarkers()]
     for dt in ('f', 'd'):
@@ -520,6 +640,12 @@ def obligations(tier):
         o.name = 'reader-record-' + o.name
         obs.append(o)
     obs += metmap.full_obligations(tier)
+    for nz, T in ((1, 2), (2, 3), (1, 6)):
+        obs.append(ReadWind(nz, T, 'one'))
+    if tier == 'thorough':
+        for nz, T in ((1, 8), (2, 6), (3, 4), (2, 10)):
+            obs.append(ReadWind(nz, T, 'one'))
+        obs.append(ReadWind(2, 3, 'one', False))
     # met writers -> reference layout (the same obligations C08 uses)
     from . import metwrite
     for o in metwrite.obligations(tier):
